@@ -451,9 +451,9 @@ func (a *area) run(line string) string {
 		}
 		return v.String() + " done" + reentBad
 	case f[0] == "dumpapi" && len(f) == 1:
-		before := s.tree.VerifDump()
+		before := verifDump(s)
 		text := captureDump(s.tree)
-		after := s.tree.VerifDump()
+		after := verifDump(s)
 		lines := strings.Split(strings.TrimSuffix(text, "\n"), "\n")
 		if text == "" {
 			lines = nil
@@ -484,9 +484,9 @@ func (a *area) run(line string) string {
 		}
 		return "lines=" + strconv.Itoa(len(lines)) + " " + keysOK + " " + changed
 	case f[0] == "dump" && len(f) == 1:
-		return s.tree.VerifDump()
+		return verifDump(s)
 	case f[0] == "inv" && len(f) == 1:
-		return s.tree.VerifCheck()
+		return verifCheck(s)
 	}
 	return "bad-op"
 }
